@@ -398,6 +398,15 @@ class SpecEnv(object):
         is_module = U("is_module", Val, Bool)
         is_class = U("is_class", Val, Bool)
         in_sys_modules = U("in_sys_modules", Val, Bool)
+        in_sys_modules_at = U("in_sys_modules_at", Val, Int, Bool)
+        sys_module = U("sys_module", Val, Val)
+        module_attr = U("module_attr", Val, Val, Val)
+        is_exception_class = U("is_exception_class", Val, Bool)
+        is_generic_exception_class = U("is_generic_exception_class", Val, Bool)
+        class_name = U("class_name", Val, Val)
+        class_of_instance = U("class_of_instance", Val, Val)
+        derived_from = U("derived_from", Val, Val)
+        text_format = U("text_format", Val, VL, Val)
         netref_conn = U("netref_conn", Val, Val)
         netref_idpack = U("netref_idpack", Val, Val)
         id_pack = U("id_pack", Val, Val)
@@ -514,6 +523,14 @@ class SpecEnv(object):
         P["loop_ghost"] = lambda ctx, i, g: [e for e in ctx.st.trace if e[0] == "Loop"][i][2][g]
         P["n_events"] = lambda ctx: len(ctx.st.trace)
         P["n_ev"] = lambda ctx, kind: len([e for e in ctx.st.trace if e[0] == kind])
+        def p_ev_val(ctx, kind, i, k):
+            x = [e for e in ctx.st.trace if e[0] == kind][i][k]
+            return SVal(x) if z3.is_expr(x) else SVal(to_val(x))
+        P["ev_val"] = p_ev_val
+        def p_ev_raised(ctx, kind, i):
+            x = [e for e in ctx.st.trace if e[0] == kind][i][3]
+            return isinstance(x, str) and x == "raise"
+        P["ev_raised"] = p_ev_raised
         P["ev_arg"] = lambda ctx, kind, i, k: [e for e in ctx.st.trace if e[0] == kind][i][k]
         P["typeobj"] = lambda ctx, v: SVal(Val.VRef(-1 - typeof(to_val(v))))
 
@@ -592,6 +609,25 @@ class SpecEnv(object):
             return SVal(dict_view(z3.IntVal(2), eng.heap_get(ctx.st, d, "map").z, eng.heap_get(ctx.st, d, "has").z))
         P["dict_items"] = _dict_items
         P["is_int"] = lambda ctx, v: b2v(z3.And(Val.is_VInt(to_val(v))))
+        P["sys_module"] = lambda ctx, n: SVal(sys_module(to_val(n)))
+        P["module_attr"] = lambda ctx, m, n: SVal(module_attr(to_val(m), to_val(n)))
+        P["is_exception_class"] = lambda ctx, c: b2v(is_exception_class(to_val(c)))
+        P["is_generic_exception_class"] = lambda ctx, c: b2v(is_generic_exception_class(to_val(c)))
+        P["class_name"] = lambda ctx, c: SVal(class_name(to_val(c)))
+        P["class_of_instance"] = lambda ctx, c: SVal(class_of_instance(to_val(c)))
+        P["derived_from"] = lambda ctx, c: SVal(derived_from(to_val(c)))
+        P["text_format"] = lambda ctx, f, l: SVal(Val.VStr(ops.TEXT_FMT(to_val(f), Val.VTuple(self.to_sort(l, "vl")))))
+
+        def p_generic_cache_ok(ctx, d):
+            """class invariant of vinegar's cache of stand-in classes: what is cached under a name is a generic stand-in class
+            with exactly that name"""
+            m, h = ctx.engine.heap_get(ctx.st, d, "map").z, ctx.engine.heap_get(ctx.st, d, "has").z
+            q = z3.Const("q!gen", Val)
+            c = z3.Select(m, q)
+            return b2v(z3.ForAll([q], z3.Implies(z3.Select(h, q), z3.And(is_generic_exception_class(c), class_name(c) == q)),
+                                 patterns=[z3.Select(h, q)]))
+        P["generic_cache_ok"] = p_generic_cache_ok
+        P["module_global"] = lambda ctx, modname, name: ctx.engine.global_obj(modname, name)
         P["tuple_of"] = lambda ctx, v: SVal(seq_of(z3.IntVal(0), to_val(v)))
         P["list_of"] = lambda ctx, v: SVal(seq_of(z3.IntVal(1), to_val(v)))
         P["n_local"] = lambda ctx: len([e for e in ctx.st.trace if e[0] in ("LocalGet", "LocalSet", "LocalDel")])
